@@ -129,8 +129,10 @@ def established(port):
     return False
 
 
-def c15_scenario(bins, idx, kill_point, flt, rng):
-    targets = [{"path": "app"}, {"path": "app2"}, {"path": "lib", "uses": ["app"]}]
+def c15_scenario(bins, idx, kill_point, flt, rng, cancel=False):
+    """cancel: `app` exits non-zero 1.3 s after its sibling `app2` has printed on both streams; `app2` is still running and is
+    cancelled. What was stored of the cancelled task's output must not depend on the listener either."""
+    targets = [{"path": "app"}, {"path": "app2"}, {"path": "lib", "uses": ["app", "app2"] if cancel else ["app"]}]
     fx = fixture.Fixture(bins, targets)
     tnames = [t["path"] for t in targets]
     try:
@@ -138,6 +140,14 @@ def c15_scenario(bins, idx, kill_point, flt, rng):
             for t in tnames:
                 steps = [{"op": "out", "text": "%s out 1\n" % t}, {"op": "out", "stream": "stderr", "text": "%s err 1\n" % t},
                          {"op": "touch", "path": "%s-printed1-%s" % (tag, t)}]
+                if cancel:
+                    if t == "app":
+                        steps += [{"op": "wait", "paths": ["%s-go" % tag], "timeout_ms": 8000}, {"op": "sleep", "ms": 1300}, {"op": "exit", "code": 3}]
+                    else:
+                        steps += [{"op": "out", "text": "%s out 2\n" % t}, {"op": "out", "stream": "stderr", "text": "%s err 2\n" % t},
+                                  {"op": "sleep", "ms": 30000}, {"op": "exit", "code": 0}]
+                    fx.add_cmd(t, "build", steps, ext=".sh")
+                    continue
                 if t == "app":
                     steps.append({"op": "wait", "paths": ["%s-go" % tag], "timeout_ms": 8000})
                 for i in range(2, 5):
@@ -239,6 +249,12 @@ def c20_scenario(bins, idx, nt, flt, rng, heavy=False, stall=False):
                     if t == tnames[0] and c == cmds[0]:
                         # one very long text line (several MiB) between short ones
                         steps.append({"op": "out", "text": "%s %s before long\n%s\n%s %s after long\n" % (t, c, "L" * (3 * 1024 * 1024 + 17), t, c)})
+                if idx % 3 == 0 and t == tnames[-1] and c == cmds[-1]:
+                    # one line longer than 64 KiB written in two pieces with more than two flush periods in between,
+                    # while other tasks keep printing
+                    steps.append({"op": "out", "text": "%s %s long line begins " % (t, c) + "P" * 70000})
+                    steps.append({"op": "sleep", "ms": 1300})
+                    steps.append({"op": "out", "text": " ... and ends\n"})
                 for burst in range(rng.randint(1, 3)):
                     for i in range(rng.randint(1, 6)):
                         steps.append({"op": "out", "text": "%s %s out b%d l%d %s%s\n" % (t, c, burst, i, "x" * rng.randint(0, 60), wide)})
@@ -341,6 +357,12 @@ def run(pid, tier):
                     jobs.append(("c15", n, kp, f))
                     n += 1
         jobs.append(("c15", n, "mid_output", {"stdout": True, "stderr": True, "targets": ["app2"]}))
+        # a failing task cancels a sibling that is still running: unfiltered listener, a filter that excludes the
+        # cancelled task, a listener that dies early
+        for kp, f in (("before_run", {"stdout": True, "stderr": True}), ("mid_output", {"stdout": True, "stderr": True, "targets": ["app"]}),
+                      ("after_connect", {"stderr": True})) + ((("during_attach", {"stdout": True}),) if tier == "thorough" else ()):
+            n += 1
+            jobs.append(("c15cancel", n, kp, f))
     else:
         n = 12 if tier == "quick" else 200
         sizes = [2, 3, 5, 8, 12, 20, 30]
@@ -353,6 +375,8 @@ def run(pid, tier):
         rr = random.Random(chk.seed * 53 + j[1])
         if j[0] == "c15":
             return c15_scenario(bins, j[1], j[2], j[3], rr)
+        if j[0] == "c15cancel":
+            return c15_scenario(bins, j[1], j[2], j[3], rr, cancel=True)
         if j[0] == "c20stall":
             return c20_scenario(bins, j[1], j[2], j[3], rr, heavy=True, stall=True)
         return c20_scenario(bins, j[1], j[2], j[3], rr, heavy=(j[1] % 4 == 1))
